@@ -17,9 +17,17 @@ test"):
   otherwise `_populate_filesystem` (rmtree + mkdir of `cache_root/checksum`), body, `save(result)` in `finally`
   (an errored result when the body raised)                                → `execute`
 * `Submitter.__call__` returns `job.result()` read back after the run     → the `Option Res` output of `step`
-* `WorkflowTask._run` → `Submitter.expand_workflow`: node jobs are run one after the other in the same
-  `cache_root` / `readonly_caches` with `rerun and self.propagate_rerun`; the first failing node makes the
-  workflow job fail                                                       → `runNodes`, `submitWf`
+* `WorkflowTask._run` → `Submitter.expand_workflow` (synchronous workers: every node job through
+  `self.worker.run(job, rerun=rerun and self.propagate_rerun)`) and `WorkflowTask._run_async` →
+  `Submitter.expand_workflow_async` (asynchronous workers: workflow nodes through
+  `await self.worker.submit(job, rerun=rerun and self.propagate_rerun)` → `Job.run_async`, all other nodes through
+  `self.worker.run(job, rerun=rerun and self.propagate_rerun)`): node jobs run in the same `cache_root` /
+  `readonly_caches`; a node that is itself a workflow is a job with its own checksum — looked up, executed and
+  expanded recursively, the flag `rerun and propagate_rerun` being handed down at EVERY level; the first failing
+  node makes the workflow job fail (nodes form chains)                    → `Nodes`, `runNodes`, `runWf`
+  Both expansions hand the same flag to every node, so one function mirrors both.  `nest = false` is a variant in
+  which a workflow NODE does not get the flag (what `await self.worker.submit(job)` without `rerun=` would do),
+  kept only as documentation (`C11_witness_nested_flag`).
 
 Identities: a checksum starts with the task kind (`python-…`, `workflow-…`), so workflow identities and node
 identities are disjoint by construction (`Key`).  The body of a task is a parameter: `World.body n i` is the
@@ -112,27 +120,52 @@ def runTask (W : World) (skip : Bool) (st : St) (n : Nat) (sb : Sub) : St × Res
     let r := W.body n (st.execs (.task n))
     (execute st (.task n) sb found r, r)
 
-/-- `expand_workflow`: node jobs in order, stop at the first failure -/
-def runNodes (W : World) (skip : Bool) (sb : Sub) : St → List Nat → St × Bool
-  | st, [] => (st, true)
-  | st, n :: ns =>
-    match runTask W skip st n sb with
-    | (st1, .ok _) => runNodes W skip sb st1 ns
-    | (st1, .err) => (st1, false)
+/-- the node jobs of a workflow, in execution order: a python/shell task, or a workflow with its own nodes
+    (first-child / next-sibling form, so nesting of any depth is a plain inductive type) -/
+inductive Nodes
+  | nil
+  | task (n : Nat) (rest : Nodes)
+  | wf (n : Nat) (inner : Nodes) (rest : Nodes)
+deriving DecidableEq, Repr
 
-/-- `Job.run` of a workflow job -/
-def runWf (W : World) (skip : Bool) (st : St) (n : Nat) (nodes : List Nat) (sb : Sub) (propagate : Bool) :
+/-- outcome of a workflow job whose node jobs all succeeded / did not -/
+def wfRes (W : World) (n : Nat) (allOk : Bool) : Res := if allOk then .ok (W.wval n) else .err
+
+/-- the submission with which a workflow NODE job of a level is run: the level's own (`nest = true`, the code) -/
+def nodeSub (nest : Bool) (sb : Sub) : Sub := { sb with rerun := if nest then sb.rerun else false }
+
+/-- the submission with which the node jobs one level further down are run: `rerun and propagate_rerun` -/
+def innerSub (propagate : Bool) (sb : Sub) : Sub := { sb with rerun := sb.rerun && propagate }
+
+/-- `expand_workflow` / `expand_workflow_async`: the node jobs in order, each run with the submission `sb` of this
+    level (`sb.rerun` is already `rerun and propagate_rerun`); stop at the first failure.  A workflow node is run
+    like any job (cached-result test, else expand its own nodes one level further down, then save). -/
+def runNodes (W : World) (skip nest propagate : Bool) (sb : Sub) : St → Nodes → St × Bool
+  | st, .nil => (st, true)
+  | st, .task n rest =>
+    match runTask W skip st n sb with
+    | (st1, .ok _) => runNodes W skip nest propagate sb st1 rest
+    | (st1, .err) => (st1, false)
+  | st, .wf n inner rest =>
+    match cachedTest skip st (.wf n) (nodeSub nest sb) with
+    | some (.ok v) => runNodes W skip nest propagate sb (hit st (.wf n) (nodeSub nest sb) v) rest
+    | found =>
+      let r := runNodes W skip nest propagate (innerSub propagate (nodeSub nest sb)) st inner
+      let st2 := execute r.1 (.wf n) (nodeSub nest sb) found (wfRes W n r.2)
+      if r.2 then runNodes W skip nest propagate sb st2 rest else (st2, false)
+
+/-- `Job.run` / `Job.run_async` of the submitted (top-level) workflow job -/
+def runWf (W : World) (skip nest : Bool) (st : St) (n : Nat) (nodes : Nodes) (sb : Sub) (propagate : Bool) :
     St × Res :=
   match cachedTest skip st (.wf n) sb with
   | some (.ok v) => (hit st (.wf n) sb v, .ok v)
   | found =>
-    let r := runNodes W skip { sb with rerun := sb.rerun && propagate } st nodes
-    let res := if r.2 then Res.ok (W.wval n) else Res.err
-    (execute r.1 (.wf n) sb found res, res)
+    let r := runNodes W skip nest propagate (innerSub propagate sb) st nodes
+    (execute r.1 (.wf n) sb found (wfRes W n r.2), wfRes W n r.2)
 
 inductive Op
   | submit (n : Nat) (sb : Sub)
-  | submitWf (n : Nat) (nodes : List Nat) (sb : Sub) (propagate : Bool)
+  | submitWf (n : Nat) (nodes : Nodes) (sb : Sub) (propagate : Bool)
   /-- a leftover incomplete job directory appears at `l / k` (a run killed after `_populate_filesystem`,
       possibly of another process that owns `l`); whatever was there is gone -/
   | plant (l : Loc) (k : Key)
@@ -142,20 +175,20 @@ deriving DecidableEq, Repr
     execution, so this is a plain look-up) -/
 def readBack (skip : Bool) (st : St) (k : Key) (sb : Sub) : Option Res := lookupWith skip st.store k sb.locs
 
-def step (W : World) (skip : Bool) (st : St) : Op → St × Option Res
+def step (W : World) (skip nest : Bool) (st : St) : Op → St × Option Res
   | .submit n sb => let r := runTask W skip st n sb; (r.1, readBack skip r.1 (.task n) sb)
-  | .submitWf n nodes sb p => let r := runWf W skip st n nodes sb p; (r.1, readBack skip r.1 (.wf n) sb)
+  | .submitWf n nodes sb p => let r := runWf W skip nest st n nodes sb p; (r.1, readBack skip r.1 (.wf n) sb)
   | .plant l k => ({ st with store := st.store.set l k .incomplete }, none)
 
 /-- a history: the operations with what each returned, and the final state -/
-def trace (W : World) (skip : Bool) : St → List Op → List (Op × Option Res) × St
+def trace (W : World) (skip nest : Bool) : St → List Op → List (Op × Option Res) × St
   | st, [] => ([], st)
   | st, op :: ops =>
-    let r := step W skip st op
-    let t := trace W skip r.1 ops
+    let r := step W skip nest st op
+    let t := trace W skip nest r.1 ops
     ((op, r.2) :: t.1, t.2)
 
-def run (W : World) (skip : Bool) (st : St) (ops : List Op) : St := (trace W skip st ops).2
+def run (W : World) (skip nest : Bool) (st : St) (ops : List Op) : St := (trace W skip nest st ops).2
 
 /-! ### Reference semantics: an abstract cache `Loc → Key → Option Res` (only complete results exist) -/
 
@@ -184,20 +217,31 @@ def specTask (W : World) (a : ASt) (n : Nat) (sb : Sub) : ASt × Res :=
     let r := W.body n (a.execs (.task n))
     (⟨a.cache.set sb.root (.task n) (some r), a.bump (.task n)⟩, r)
 
-def specNodes (W : World) (sb : Sub) : ASt → List Nat → ASt × Bool
-  | a, [] => (a, true)
-  | a, n :: ns =>
-    match specTask W a n sb with
-    | (a1, .ok _) => specNodes W sb a1 ns
-    | (a1, .err) => (a1, false)
+/-- the abstract cached-result test -/
+def aTest (a : ASt) (k : Key) (sb : Sub) : Option Res := if sb.rerun then none else alookup a.cache k sb.locs
 
-def specWf (W : World) (a : ASt) (n : Nat) (nodes : List Nat) (sb : Sub) (propagate : Bool) : ASt × Res :=
-  match (if sb.rerun then none else alookup a.cache (.wf n) sb.locs) with
+def aStore (a : ASt) (k : Key) (sb : Sub) (r : Res) : ASt := ⟨a.cache.set sb.root k (some r), a.bump k⟩
+
+def specNodes (W : World) (propagate : Bool) (sb : Sub) : ASt → Nodes → ASt × Bool
+  | a, .nil => (a, true)
+  | a, .task n rest =>
+    match specTask W a n sb with
+    | (a1, .ok _) => specNodes W propagate sb a1 rest
+    | (a1, .err) => (a1, false)
+  | a, .wf n inner rest =>
+    match aTest a (.wf n) sb with
+    | some (.ok _) => specNodes W propagate sb a rest
+    | _ =>
+      let r := specNodes W propagate (innerSub propagate sb) a inner
+      let a2 := aStore r.1 (.wf n) sb (wfRes W n r.2)
+      if r.2 then specNodes W propagate sb a2 rest else (a2, false)
+
+def specWf (W : World) (a : ASt) (n : Nat) (nodes : Nodes) (sb : Sub) (propagate : Bool) : ASt × Res :=
+  match aTest a (.wf n) sb with
   | some (.ok v) => (a, .ok v)
   | _ =>
-    let r := specNodes W { sb with rerun := sb.rerun && propagate } a nodes
-    let res := if r.2 then Res.ok (W.wval n) else Res.err
-    (⟨r.1.cache.set sb.root (.wf n) (some res), r.1.bump (.wf n)⟩, res)
+    let r := specNodes W propagate (innerSub propagate sb) a nodes
+    (aStore r.1 (.wf n) sb (wfRes W n r.2), wfRes W n r.2)
 
 def specStep (W : World) (a : ASt) : Op → ASt × Option Res
   | .submit n sb => let r := specTask W a n sb; (r.1, some r.2)
@@ -231,6 +275,34 @@ def foundErrAt (log : List Event) (w : Loc) (k : Key) : Nat :=
 
 def plantsAt (ops : List Op) (w : Loc) (k : Key) : Nat :=
   ops.countP (fun o => o = .plant w k)
+
+/-- workflow identities occurring in a node sequence (at any depth) -/
+def Nodes.wfKeys : Nodes → List Nat
+  | .nil => []
+  | .task _ rest => rest.wfKeys
+  | .wf n inner rest => n :: (inner.wfKeys ++ rest.wfKeys)
+
+/-- no workflow contains (at any depth) a workflow of its own identity — a checksum covers the whole
+    definition, so a workflow cannot contain itself -/
+def Nodes.Acyclic : Nodes → Prop
+  | .nil => True
+  | .task _ rest => rest.Acyclic
+  | .wf n inner rest => n ∉ inner.wfKeys ∧ inner.Acyclic ∧ rest.Acyclic
+
+def Op.Acyclic : Op → Prop
+  | .submitWf n nodes _ _ => n ∉ nodes.wfKeys ∧ nodes.Acyclic
+  | _ => True
+
+/-- occurrences of task `m` / workflow `k` in a node sequence, at any depth -/
+def Nodes.countTask (m : Nat) : Nodes → Nat
+  | .nil => 0
+  | .task n rest => (if n = m then 1 else 0) + rest.countTask m
+  | .wf _ inner rest => inner.countTask m + rest.countTask m
+
+def Nodes.countWf (k : Nat) : Nodes → Nat
+  | .nil => 0
+  | .task _ rest => rest.countWf k
+  | .wf n inner rest => (if n = k then 1 else 0) + inner.countWf k + rest.countWf k
 
 /-- root into which an operation writes (`none` for the environment move `plant`) -/
 def Op.root? : Op → Option Loc
